@@ -106,8 +106,31 @@ func (Engine) Run(prop string, t *core.Tape, st *core.Stats) *core.Violation {
 	return v
 }
 
+// runsInProcess counts the runs this process has executed (reach probe only:
+// nothing the run does depends on it).
+var runsInProcess int
+
 func run(t *core.Tape, st *core.Stats) *core.Violation {
-	spec := world.DrawSchema(t, world.SchemaOptions{MinTypes: 2, MaxTypes: 5, MaxAttrs: 5, MaxRels: 3, Names: world.NamesPlain, AllowStruct: true, ForceStruct: -1, TwoWay: true})
+	// Cold start: in an eighth of the runs the driver runs no library code before the
+	// tasks start other than building the schema (soft types only, payloads written
+	// by hand), so that state the library fills lazily on first use is still empty
+	// when the tasks race for it — in the runs that are the first of their worker
+	// process (worker processes live for 25 runs).
+	cold := t.Bool(1, 8)
+	so := world.SchemaOptions{MinTypes: 2, MaxTypes: 5, MaxAttrs: 5, MaxRels: 3, Names: world.NamesPlain, AllowStruct: true, ForceStruct: -1, TwoWay: true}
+
+	if cold {
+		so.ForceStruct = 0
+		st.Inc("probe:cold-start-run")
+
+		if runsInProcess == 0 {
+			st.Inc("probe:cold-start-run-first-in-its-process")
+		}
+	}
+
+	runsInProcess++
+
+	spec := world.DrawSchema(t, so)
 
 	// "every schema": some have a relationship whose target type does not exist
 	dangling := t.Bool(1, 4)
@@ -121,6 +144,11 @@ func run(t *core.Tape, st *core.Stats) *core.Violation {
 
 	if viaHistory {
 		st.Inc("probe:schema-built-through-edit-history")
+	}
+
+	noFromType := t.Bool(1, 3)
+	if noFromType {
+		st.Inc("probe:schema-with-a-relationship-without-FromType")
 	}
 
 	build := func() (*jsonapi.Schema, error, *core.Panic) {
@@ -139,6 +167,11 @@ func run(t *core.Tape, st *core.Stats) *core.Violation {
 
 			if err == nil && dangling {
 				_ = s.AddRel(spec.Types[0].Name, jsonapi.Rel{FromType: spec.Types[0].Name, FromName: "dangling-rel", ToType: "nowhere", ToName: "back"})
+			}
+
+			if err == nil && noFromType {
+				// a one-way relationship written by hand without FromType (AddRel and Check accept it)
+				_ = s.AddRel(spec.Types[0].Name, jsonapi.Rel{FromName: "no-from-type", ToType: spec.Types[len(spec.Types)-1].Name, ToOne: true})
 			}
 		})
 
@@ -174,7 +207,7 @@ func run(t *core.Tape, st *core.Stats) *core.Violation {
 	for i := range tasks {
 		var ops []op
 
-		if p := core.Call(func() { ops = drawOps(t, spec, twin) }); p != nil {
+		if p := core.Call(func() { ops = drawOps(t, spec, twin, cold) }); p != nil {
 			// preparing inputs runs library code sequentially on a private schema; a
 			// panic there is not a C12 matter
 			st.Inc("probe:input-preparation-panicked")
